@@ -77,6 +77,9 @@ void libxmp_virt_resetvoice(struct context_data *ctx, int voc, int mute)
 	memset(vi, 0, sizeof(struct mixer_voice));
 #ifdef LIBXMP_PAULA_SIMULATOR
 	vi->paula = paula;
+	/* a freed voice keeps no Paula history for the next channel that gets it */
+	if (paula != NULL)
+		libxmp_paula_init(ctx, paula);
 #endif
 	vi->chn = vi->root = FREE;
 }
@@ -200,6 +203,8 @@ void libxmp_virt_reset(struct context_data *ctx)
 		memset(vi, 0, sizeof(struct mixer_voice));
 #ifdef LIBXMP_PAULA_SIMULATOR
 		vi->paula = paula;
+		if (paula != NULL)
+			libxmp_paula_init(ctx, paula);
 #endif
 		vi->chn = FREE;
 		vi->root = FREE;
@@ -313,6 +318,9 @@ void libxmp_virt_resetchannel(struct context_data *ctx, int chn)
 	memset(vi, 0, sizeof(struct mixer_voice));
 #ifdef LIBXMP_PAULA_SIMULATOR
 	vi->paula = paula;
+	/* a freed voice keeps no Paula history for the next channel that gets it */
+	if (paula != NULL)
+		libxmp_paula_init(ctx, paula);
 #endif
 	vi->chn = vi->root = FREE;
 }
